@@ -2,7 +2,34 @@
 import itertools
 from lib import common as C, scen, clientrun
 
-THEOREMS = []
+THEOREMS = [
+    ("C03_rollback_online", "rollback_online_stmt fixed"),
+    ("C03_rollback_targets",
+     "forall h s0 i j rp_i w_i rp_j w_j, (i < j)%nat -> "
+     "nth_error (run_hist fixed h s0) i = Some (Ok rp_i, w_i) -> "
+     "nth_error (run_hist fixed h s0) j = Some (Ok rp_j, w_j) -> "
+     "(forall k c, (i < k <= j)%nat -> nth_error h k = Some c -> "
+     "forall r, final_root fixed c = Some r -> auth_eq 2 (rp_root rp_i) r) -> "
+     "tg_version (rp_targets rp_i) <= tg_version (rp_targets rp_j)"),
+    ("C03_unchanged_entry_suffices",
+     "forall role r r' rk, find_role role (r_roles r) = Some rk -> find_role role (r_roles r') = Some rk -> "
+     "(forall k, In k (rk_keyids rk) -> memN k (r_keys r) = memN k (r_keys r')) -> "
+     "role_keys r role = role_keys r' role /\\ auth_eq role r r'"),
+    ("C03_rollback_refuted", "~ rollback_online_stmt original"),
+]
+
+# the statement of the first theorem, unfolded, is pinned too (rollback_online_stmt is a definition in
+# Proofs/RollbackP.v; the gate checks it is convertible with this text)
+UNFOLDED = ("C03_rollback_online",
+            "forall h s0 i j rp_i w_i rp_j w_j, (i < j)%nat -> "
+            "nth_error (run_hist fixed h s0) i = Some (Ok rp_i, w_i) -> "
+            "nth_error (run_hist fixed h s0) j = Some (Ok rp_j, w_j) -> "
+            "(forall k c, (i < k <= j)%nat -> nth_error h k = Some c -> "
+            "forall r, final_root fixed c = Some r -> online_same (rp_root rp_i) r) -> "
+            "ts_version (rp_ts rp_i) <= ts_version (rp_ts rp_j) "
+            "/\\ sn_version (rp_snap rp_i) <= sn_version (rp_snap rp_j) "
+            "/\\ listed_version (rp_snap rp_i) <= listed_version (rp_snap rp_j)")
+THEOREMS.append(UNFOLDED)
 
 
 class State:
@@ -76,11 +103,14 @@ def oracle(chk, s, info, rotation, impl, desc):
                     if (tsv, snv, tgv)[idx] < vi[idx]:
                         changed = root_v > root_i and any(
                             auth(rotation[root_v - 1], d) != auth(rotation[root_i - 1], d) for d in dep)
+                        withheld = root_v < root_i and any(
+                            auth(rotation[root_v - 1], d) != auth(rotation[root_i - 1], d) for d in dep)
                         if not changed:
                             chk.violation(
                                 "cycle %d trusted %s version %d, later cycle %d succeeded with version %d and no "
                                 "newer root changed the role's keys or threshold" % (
-                                    i + 1, role, vi[idx], j + 1, (tsv, snv, tgv)[idx]), desc)
+                                    i + 1, role, vi[idx], j + 1, (tsv, snv, tgv)[idx]), desc,
+                                known_class="root_withheld" if withheld else None)
             succ.append((j, (root_v, (tsv, snv, tgv))))
     # no lock-out: a consistent state at least as new as everything served before must be accepted
     seen = [0, 0, 0, 0]
@@ -88,6 +118,8 @@ def oracle(chk, s, info, rotation, impl, desc):
         v = inf["versions"]
         consistent = v[2] == v[3]
         current_keys = inf["files_signed_in_epoch"] == inf["root_chain_upto"] - 1
+        if j > 0 and inf["root_chain_upto"] < max(x["root_chain_upto"] for x in info[:j]):
+            continue    # an older root is in force again: not "a repository that moves forward"
         if consistent and current_keys and all(v[k] >= seen[k] for k in range(4)):
             if impl[j][0][0] != 0:
                 chk.violation("cycle %d: a correctly signed, unexpired repository at least as new as everything "
@@ -126,6 +158,11 @@ def gen(chk):
         plan = [((5, 5, 5, 5), 1, 1), ((4, 4, 4, 4), 1, 1), ((4, 4, 4, 4), 1, 1)]
         out.append(("rotated-then-replay", False, True, rot, plan))
         out.append(("rotated-then-replay", True, True, rot, plan))
+    # root withholding: cycle 1 sees root v2 (rotated timestamp key), cycle 2 is served the old chain only
+    for newrole in ({"timestamp": ([4], 1)}, {"snapshot": ([5], 1)}):
+        r2 = dict(d)
+        r2.update(newrole)
+        out.append(("root-withheld", False, True, [d, r2], [((5, 5, 5, 5), 1, 1), ((4, 4, 4, 4), 0, 0)]))
     n_random = 600 if chk.tier == "quick" else 12000
     for _ in range(n_random):
         rot = rotations(rng) if rng.random() < 0.6 else ROT_NONE
@@ -135,7 +172,10 @@ def gen(chk):
         plan = []
         upto = 0
         for j in range(n):
-            upto = min(len(rot) - 1, max(upto, rng.randint(0, len(rot) - 1)))
+            if rng.random() < 0.15:
+                upto = rng.randint(0, len(rot) - 1)          # the attacker may withhold newer roots
+            else:
+                upto = min(len(rot) - 1, max(upto, rng.randint(0, len(rot) - 1)))
             epoch = upto if rng.random() < 0.7 else rng.randint(0, upto)
             vers = [rng.choice(V) for _ in range(4)]
             if rng.random() < 0.8:
@@ -160,10 +200,9 @@ def run(chk):
                 "than an earlier one; distinct by scenario")
     chk.assumptions = ["one clock sample per cycle in the model (the code samples four times within milliseconds)",
                        "symbolic signatures; SHA-256 collision-free"]
-    if THEOREMS:
-        chk.proof, fails = C.proof_gate("C03", THEOREMS)
-        for f in fails:
-            chk.broken(f, {"theorem_gate": f})
+    chk.proof, fails = C.proof_gate("C03")
+    for f in fails:
+        chk.broken(f, {"theorem_gate": f})
     C.ensure_harness()
     specs = gen(chk)
     built = [build_history(chk.rng, len(p[4]), p[1], p[2], p[3], p[4]) for p in specs]
